@@ -4,6 +4,7 @@ from harness.checks import common
 
 def run(chk):
     q = chk.quick
+    chk.own_clauses = ('canon.',)      # 'neither adding nor removing variables changes ... the canonicity'
     chk.rule = (
         'S1: MC_VarDecl (add_var / undeclare_vars / var / apply / drop / gc / '
         'swap interleaved, 3 names: AddVarC, UndeclareC, HeldSame, Canonical). '
